@@ -41,6 +41,7 @@ def main():
         for p in props:
             r = sh('cd %s && VERIF_SEED=%%d ./check %%s --tier quick' % VROOT % (seed, p), env=env, timeout=3000)
             lines = [l for l in r.stdout.splitlines() if l.startswith(('VIOLATION', 'KNOWN-FINDING', 'INFRA'))]
+            lines.sort(key=lambda l: not l.startswith('VIOLATION'))   # stable: VIOLATION lines first, then the rest
             checks['%s/quick/seed%d' % (p, seed)] = dict(exit=r.returncode, lines=lines[:6],
                                                          summary=r.stdout.strip().splitlines()[-1:], rechecked_at=head)
             print(name, p, 'exit', r.returncode, lines[:3], r.stdout.strip().splitlines()[-1:])
